@@ -346,7 +346,7 @@ func init() {
 	})
 }
 
-var c16Hostile = []string{"a\nb", "a\rb", "tab\there", "\x1b[31mred", "\x00", "\x07bell", "\u0085nel", "\u2028ls", "\u2029ps", "日本語", "e\u0301", "\u202eRTL", "\"dq\"", "'sq'", "100%", "%!s(int=1)", "%d %s %v", "x [y]", "]", "[", "a [b] c [d]", ": 1:1: ", "foo: bar", strings.Repeat("long", 30), "\ufeffbom", "emoji😀", "a\\nb", "{", "}", "${{", "}}", "*", "&a", "#c", " lead", "trail ", "\xff\xfe", "${{ github.ref =\n'x' }}", "${{ 1.\n }}", "${{ a &\n& b }}", "${{ 0x\n1 }}", "${{ github.sha |\n| 'y' }}", "${{ 'unterminated\n }}", "${{ a }\n} ${{ b }}", "${{ 1e\n3 }}", "x ${{ !\n= }}", "テスト用のワークフローです ${{ github.evnt }}", "日本語日本語日本語日本語 ${{ github. }}", "ééééééééééééé ${{ zzz }} x", "😀😀😀😀😀😀 ${{ format('{0}') }}", "100% ${{ zzz }}", "@foo\nbar", "@every 1h\nx", "TZ=a\nb 0 0 * * *", "0 0 * * *\n", "*/x\n * * * *", "a\nb/c@v1", "./a\nb", "docker://a\nb"}
+var c16Hostile = []string{"a\nb", "a\rb", "tab\there", "\x1b[31mred", "\x00", "\x07bell", "\u0085nel", "\u2028ls", "\u2029ps", "日本語", "e\u0301", "\u202eRTL", "\"dq\"", "'sq'", "100%", "%!s(int=1)", "%d %s %v", "x [y]", "]", "[", "a [b] c [d]", ": 1:1: ", "foo: bar", strings.Repeat("long", 30), "\ufeffbom", "emoji😀", "a\\nb", "{", "}", "${{", "}}", "*", "&a", "#c", " lead", "trail ", "\xff\xfe", "${{ fromJSON('{\"a\\nb\":1}').zz }}", "${{ fromJSON('{\"k\\r\\nl\": {\"c\\u2028d\": 1}, \"t\\tu\": 2}').x }}", "${{ fromJSON('{\"v\\u000bw\": 1, \"f\\ff\": 2, \"n\\u0085e\": 3}').y }}", "${{ github.ref =\n'x' }}", "${{ 1.\n }}", "${{ a &\n& b }}", "${{ 0x\n1 }}", "${{ github.sha |\n| 'y' }}", "${{ 'unterminated\n }}", "${{ a }\n} ${{ b }}", "${{ 1e\n3 }}", "x ${{ !\n= }}", "テスト用のワークフローです ${{ github.evnt }}", "日本語日本語日本語日本語 ${{ github. }}", "ééééééééééééé ${{ zzz }} x", "😀😀😀😀😀😀 ${{ format('{0}') }}", "100% ${{ zzz }}", "@foo\nbar", "@every 1h\nx", "TZ=a\nb 0 0 * * *", "0 0 * * *\n", "*/x\n * * * *", "a\nb/c@v1", "./a\nb", "docker://a\nb"}
 
 func TestC16(t *testing.T) {
 	hx.Main(t, "C16", func(r *hx.Run) {
